@@ -218,6 +218,15 @@ def main(argv=None):
                 if e2 is not None:
                     bad = f"get_comparam({n}, {pn}) raised {type(e2).__name__}"
                     break
+                if pn is not None:
+                    # the protocol may be given by name or as the protocol layer itself: the same parameter
+                    pobj = next((x for x in db.diag_layers if x.short_name == pn), None)
+                    cpo, e2o, _ = cc.guarded(lambda: dl.get_comparam(n, protocol=pobj))
+                    if e2o is not None or (cpo is None) != (cp is None) or (cp is not None and tag_of(cpo) != tag_of(cp)):
+                        bad = (f"L{i}.get_comparam({n}, protocol=<the layer {pn}>) gives "
+                               f"{type(e2o).__name__ if e2o is not None else (None if cpo is None else tag_of(cpo))}, "
+                               f"by name it gives {None if cp is None else tag_of(cp)}")
+                        break
                 if cp is None:
                     res.append([])
                     exp = None
